@@ -4,6 +4,7 @@ package store
 import (
 	"context"
 	"encoding/binary"
+	"encoding/hex"
 	"fmt"
 	"sort"
 
@@ -22,6 +23,8 @@ type ChunkSpec struct {
 	Kids []int  `json:"kids,omitempty"` // indexes of earlier chunks referenced by this one
 	// Dangle adds references to addresses that are never written (C07).
 	Dangle int `json:"dangle,omitempty"`
+	// Raw, when set, is the complete payload in hex (prefix-collision fixtures).
+	Raw string `json:"raw,omitempty"`
 }
 
 const chunkMagic = 0xD5
@@ -56,9 +59,15 @@ func BuildUniverse(specs []ChunkSpec) *Universe {
 			kids = append(kids, h)
 		}
 		data := EncodeChunk(kids, s.Size, s.Fill, s.Comp)
+		if s.Raw != "" {
+			data, _ = hex.DecodeString(s.Raw)
+			kids = nil
+		}
 		c := MChunk{Addr: hash.Of(data), Data: data, Kids: kids}
 		u.Chunks = append(u.Chunks, c)
-		u.ByAddr[c.Addr] = i
+		if _, dup := u.ByAddr[c.Addr]; !dup {
+			u.ByAddr[c.Addr] = i // identical payloads share one address: the first index is canonical
+		}
 	}
 	return u
 }
@@ -153,5 +162,8 @@ func (u *Universe) Closure(root hash.Hash) (idx []int, missing []hash.Hash) {
 	sort.Ints(idx)
 	return
 }
+
+// Canon maps a chunk index to the canonical index of its address.
+func (u *Universe) Canon(i int) int { return u.ByAddr[u.Chunks[i].Addr] }
 
 func short(h hash.Hash) string { return h.String()[:8] }
